@@ -533,7 +533,9 @@ def fix_reimported_names(source: str) -> str:
     for module, aliases in module_from_imports.items():
         yield None, ast.ImportFrom(
             module=module,
-            names=sorted(aliases, key=lambda alias: alias.name),
+            # asname too: 'import x, x as y' gives two aliases with the same name, and aliases is a
+            # set of freshly built nodes whose iteration order depends on object addresses.
+            names=sorted(aliases, key=lambda alias: (alias.name, alias.asname or "")),
             level=0,
             lineno=import_insert_lineno,
         ), transaction
